@@ -231,3 +231,103 @@ def run(ctx: Ctx) -> None:
            "full item area", construct="reported geometric bound")
     from sa.checks.c03_damv import run_damv
     run_damv(ctx)
+    ctx.rule("D3.3", "the constructor keeps the data and the derived "
+             "attributes the bounds are computed from")
+    _constructor_stores(ctx)
+
+
+def _constructor_stores(ctx: Ctx) -> None:
+    """Instance.__new__ keeps the data and the derived attributes."""
+    repo = ctx.repo
+    new = repo.func(INST, "Instance.__new__")
+    body = func_body(new)
+
+    def src(n: ast.AST) -> str:
+        return ast.unparse(n).replace(" ", "")
+    problems: list[str] = []
+    objn = None
+    for s in body:
+        if isinstance(s, (ast.Assign, ast.AnnAssign)) and isinstance(
+                s.value, ast.Call) and src(s.value.func) in (
+                "super().__new__", "np.ndarray.__new__"):
+            tg = s.targets[0] if isinstance(s, ast.Assign) else s.target
+            objn = tg.id if isinstance(tg, ast.Name) else None
+    rets = [r for r in ast.walk(new.node) if isinstance(r, ast.Return)]
+    if objn is None or len(rets) != 1 or src(rets[0].value) != objn:
+        ctx.ob("D3.3", new, new.node, False,
+               "the constructor does not return the array it allocates",
+               construct="constructor stores")
+        return
+    attrs: dict[str, str] = {}
+    for s in body:
+        if isinstance(s, ast.Assign) and isinstance(
+                s.targets[0], ast.Attribute) and src(
+                s.targets[0].value) == objn:
+            v = s.value
+            while isinstance(v, ast.Call) and src(v.func) in (
+                    "check_int_range", "int") and v.args:
+                v = v.args[0]
+            attrs[s.targets[0].attr] = src(v)
+    p = new.params
+    want = {"name": "use_name", "n_different_items": "n_different_items",
+            "n_items": "n_items", "bin_height": p[3], "bin_width": p[2],
+            "total_item_area": "item_area"}
+    for a, v in want.items():
+        if attrs.get(a) != v:
+            problems.append(f"`{objn}.{a}` is "
+                            + (f"set to `{attrs[a]}`" if a in attrs
+                               else "never set") + f", expected `{v}`")
+    # the rows are copied into the array
+    copies = [s for s in ast.walk(new.node) if isinstance(s, ast.Assign)
+              and isinstance(s.targets[0], ast.Subscript) and src(
+                  s.targets[0].value) == objn]
+    okc = False
+    for c in copies:
+        t = src(c.targets[0])
+        lp = next((lp for lp in ast.walk(new.node) if isinstance(lp, ast.For)
+                   and c in lp.body), None)
+        if lp is not None and isinstance(lp.target, ast.Name):
+            i = lp.target.id
+            okc = okc or (t == f"{objn}[{i},:]" and src(c.value) ==
+                          f"{p[4]}[{i}]" and src(lp.iter) ==
+                          "range(n_different_items)")
+        okc = okc or (t in (f"{objn}[:]", f"{objn}[:,:]")
+                      and src(c.value) == p[4])
+    if not okc:
+        problems.append("the rows of the matrix are not copied into the "
+                        "instance")
+    # item counting: n_items = sum of the multiplicities
+    loop = next((s for s in body if isinstance(s, ast.For) and any(
+        isinstance(x, ast.AugAssign) and src(x.target) == "item_area"
+        for x in ast.walk(s))), None)
+    okn = False
+    if loop is not None:
+        unpack = next((b for b in loop.body if isinstance(b, ast.Assign)
+                       and isinstance(b.targets[0], ast.Tuple)), None)
+        rep = src(unpack.targets[0].elts[2]) if unpack is not None and len(
+            unpack.targets[0].elts) == 3 else None
+        okn = rep is not None and any(
+            isinstance(b, ast.AugAssign) and isinstance(b.op, ast.Add)
+            and src(b.target) == "n_items" and src(b.value) == rep
+            for b in loop.body) and any(
+            isinstance(b, (ast.Assign, ast.AnnAssign)) and src(
+                b.targets[0] if isinstance(b, ast.Assign) else b.target)
+            == "n_items" and repo.const(new.module, b.value) == 0
+            for b in body)
+    if not okn:
+        problems.append("n_items is not the sum of the multiplicities")
+    # the DAMV bound is computed for this bin and these items
+    calls = [c for c in ast.walk(new.node) if isinstance(c, ast.Call)
+             and isinstance(c.func, ast.Name)
+             and c.func.id == "_lower_bound_damv"]
+    if len(calls) != 1 or [src(a) for a in calls[0].args] != [
+            p[2], p[3], objn]:
+        problems.append("_lower_bound_damv is not called as (bin_width, "
+                        "bin_height, <the instance>)")
+    ctx.ob("D3.3", new, new.node, not problems,
+           "the constructor copies every row, stores name, bin dimensions, "
+           "n_different_items, n_items (= sum of multiplicities) and "
+           "total_item_area under these names, and computes the DAMV bound "
+           "for (bin_width, bin_height, the instance itself)"
+           if not problems else "; ".join(problems),
+           construct="constructor stores")
